@@ -124,6 +124,10 @@ func (g *vcgen) findSharedCells() {
 					// only cells the goroutine may write are unstable for the spawner
 					if closureWrites(mc.Fn.(*ssa.Function), al, mc) {
 						g.sharedCell[al] = true
+						if g.sharedSince == nil {
+							g.sharedSince = map[ssa.Value][]ssa.Instruction{}
+						}
+						g.sharedSince[al] = append(g.sharedSince[al], ins)
 					}
 				}
 			}
@@ -816,6 +820,38 @@ func (g *vcgen) storesToGlobals() bool {
 				}
 			}
 		}
+	}
+	return false
+}
+
+// mayPrecede: instruction a may have been executed before instruction b is (control-flow reachability)
+func mayPrecede(a, b ssa.Instruction) bool {
+	ab, bb := a.Block(), b.Block()
+	idx := func(blk *ssa.BasicBlock, x ssa.Instruction) int {
+		for i, in := range blk.Instrs {
+			if in == x {
+				return i
+			}
+		}
+		return -1
+	}
+	if ab == bb && idx(ab, a) < idx(bb, b) {
+		return true
+	}
+	seen := map[*ssa.BasicBlock]bool{}
+	var stack []*ssa.BasicBlock
+	stack = append(stack, ab.Succs...)
+	for len(stack) > 0 {
+		n := stack[len(stack)-1]
+		stack = stack[:len(stack)-1]
+		if seen[n] {
+			continue
+		}
+		seen[n] = true
+		if n == bb {
+			return true
+		}
+		stack = append(stack, n.Succs...)
 	}
 	return false
 }
